@@ -70,6 +70,7 @@ def swarm(rng, tier: str, *, profile: str = "edit") -> dict:
         cfg["lets"] = rng.choice([0, 1, 2, 3])
     # scripted read / restructure / write-again triples mixed into the operation stream (OpGen._scenario)
     cfg["scenarios"] = rng.random() < 0.4
+    cfg["trailing_blank"] = rng.random() < 0.08
     return cfg
 
 
@@ -97,11 +98,15 @@ class DocGen:
             return self.rng.choice(["true", "false", "null"])
         if r < 0.86:
             return "[ %d %d ]" % (base, base + 50)
-        if r < 0.92:
+        if r < 0.9:
             return "./p%d" % base
+        if r < 0.92:
+            # path literals and strings that hold whole expressions inside an interpolation
+            return self.rng.choice(["./h/${lib.n%d}/x.nix", "./p/${toString (%d + 1)}", '"a${ (x: x) %d }b"', "''c ${toString %d} d''"]) % base
         if r < 0.96:
             return "%d + %d" % (base, 1)
-        return "[\n@%d\n@%d\n]" % (base, base + 50)  # multi-line list, '@' = indent marker
+        # multi-line values, '@' = indent marker; some hold a blank line of their own
+        return self.rng.choice(["[\n@%d\n@%d\n]", "[\n@%d\n@%d\n]", "[\n@%d\n\n@%d\n]", "''\n@l %d\n\n@m %d\n''"]) % (base, base + 50)
 
     def comment(self, tag: str) -> str:
         self.counter += 1
@@ -173,7 +178,7 @@ class DocGen:
                         continue
                 val = self.literal()
                 if "\n" in val:
-                    val = val.replace("@", " " * (ind + 2)).replace("\n]", "\n" + pad + "]")
+                    val = val.replace("@", " " * (ind + 2)).replace("\n]", "\n" + pad + "]").replace("\n''", "\n" + pad + "''")
                 lines.extend(pre)
                 lines.append(pad + "%s = %s;%s" % (fmt_name(nm), val, eol))
                 count += 1
@@ -181,6 +186,9 @@ class DocGen:
                 lines.append("")
         while lines and lines[-1] == "":
             lines.pop()
+        if cfg.get("trailing_blank") and lines and not in_let and rng.random() < 0.6:
+            # non-RFC but valid and kept by the library: a blank line between the last member and the closing brace
+            lines.append("")
         if cfg["attrpath"] and cfg.get("mixed_family", True) and depth == 0 and rng.random() < 0.12:
             # mixed family: a name defined by an explicit set *and* by attrpath bindings (Nix merges them)
             heads = [k for k, l in enumerate(lines) if l.startswith(pad) and not l.startswith(pad + " ") and l.rstrip().endswith("= {") and model._BARE.match(l.strip().split(" ")[0])]
